@@ -193,6 +193,18 @@ CLAIMED["C06"] = dict(
     technique="decision/effect tables + polynomial terms extracted from MIR",
 )
 
+CLAIMED["C12"] = dict(
+    category="other",
+    text=("Structural clauses: R12.1 in all ClosestPoint impls Closest::Intersection is built only under the exact self.intersects(p) (or p == self "
+          "for Point) and carries a copy of p, and an intersecting query never yields SinglePoint; R12.2 best_of_two table (Indeterminate "
+          "neutral, Intersection absorbing, distance(left,p) <= distance(right,p) keeps self) and closest_of as a fold from Indeterminate with "
+          "early exit exactly on Intersection; R12.3 the polygon interior-point scan line is placed against the y of every vertex of every "
+          "ring and the candidate is confirmed with relate/intersects. Not decided: nearest-ness, strict interiority, panic freedom of the sweep."),
+    design_ref="DESIGN.md §4 C12",
+    note="Trusted: Intersects (C02/C03), relate (C01). Distance optimality is not claimed.",
+    technique="guard / provenance rules and decision tables over MIR path tables",
+)
+
 NOT_YET = "rule set not implemented in this revision of /verif (see DESIGN.md §7 build order); nothing is claimed"
 NA = {}
 
